@@ -33,9 +33,9 @@ def hist_harness(L, sw, ch, sr, K, overlap, limit, use_recorder_cls):
             H = B
         n_vis = n
         if limit:
-            e.assume(M >= 0)
-            kw["max_read"] = SymRat(M, sr)
-            syms["M"] = M
+            mr, M, Mq = byt.sym_max_read(e, sr)
+            kw["max_read"] = mr
+            syms["Mq"] = Mq
             n_vis = z3.If(M < n, M, n)
         meta = dict(sw=sw, ch=ch, sr=sr, overlap=overlap, limit=limit, cls=use_recorder_cls)
         ops = []
@@ -148,12 +148,15 @@ def replay_fn(c):
         kw["hop_dur"] = H / sr
     n_vis = n
     if c["limit"]:
-        kw["max_read"] = c["M"] / sr
-        n_vis = min(n, c["M"])
-    if int((B / sr) * sr) != B or (c["overlap"] and int((H / sr) * sr) != H) or (c["limit"] and round((c["M"] / sr) * sr) != c["M"]):
+        mrc = byt.max_read_concrete(c["Mq"], sr)
+        if mrc is None:
+            return []
+        kw["max_read"] = mrc[0]
+        n_vis = min(n, mrc[1])
+    if int((B / sr) * sr) != B or (c["overlap"] and int((H / sr) * sr) != H):
         return []
     desc = "%s(%d samples sw=%d ch=%d sr=%d, block=%d hop=%s max_read=%s) history %s" % (
-        "Recorder" if c["cls"] else "AudioReader[record]", n, sw, ch, sr, B, H if c["overlap"] else None, c.get("M") if c["limit"] else None, c["ops"])
+        "Recorder" if c["cls"] else "AudioReader[record]", n, sw, ch, sr, B, H if c["overlap"] else None, ("%s/4 samples" % c.get("Mq")) if c["limit"] else None, c["ops"])
     try:
         r = ak.Recorder(data, **kw) if c["cls"] else ak.AudioReader(data, record=True, **kw)
         r.open()
@@ -211,7 +214,7 @@ def run(rep):
     K = b["K"]
     tier = rep.tier
     rep.bounds = {"histories": "every sequence of %d operations out of read / rewind / .data on a fresh recording reader" % K,
-                  "symbolic": "source length n, block B, hop H < B, max_read M (samples): unbounded integers",
+                  "symbolic": "source length n, block B, hop H < B, max_read = Mq/4 samples with Mq an unbounded integer (quarter-sample resolution, so rounding ties and fractions are covered)",
                   "enumerated": "overlap x limiter on/off; AudioReader(record=True) and Recorder; formats %s" % byt.fmts(tier)[:2]}
     rep.explanation = ("Real recording AudioReader driven through every operation history of length K; z3 proves per path that "
                        "data == D[:consumed], that replayed blocks equal the C10 framing over data, and that data before the first rewind raises.")
